@@ -535,7 +535,24 @@ def check(ctx, env):
         known = pa.choice(r"^variant\(dec\.expected_size\)$")
         # a path whose comparisons contradict each other or the class invariant (R16.4) cannot be taken: E2 explores both
         # outcomes of `0 > 0`-like tests that piecewise operations (min, checked_sub) leave behind; such paths carry no duty
-        gforms = [guard_form(g) for g in pa.guards()] + [guard_form(g) if g is not None else None for g in get_guards(pa)]
+        gforms, ne_tests = [], []
+        for g in pa.guards():
+            if g[0] in ("Eq", "Ne"):
+                # a == b is the conjunction a >= b and b >= a; a != b is not convex: it selects nothing when the other
+                # tests of the path already decide it (`count == remaining` after `count = min(remaining, len)`)
+                if (g[3] == 1) == (g[0] == "Eq"):
+                    gforms += [guard_form(("Ge", g[1], g[2], 1)), guard_form(("Ge", g[2], g[1], 1))]
+                else:
+                    ne_tests.append(g)
+            else:
+                gforms.append(guard_form(g))
+        gforms += [guard_form(g) if g is not None else None for g in get_guards(pa)]
+        as_fact_ = lambda f: {(1 if k == "1" else k): v for k, v in f}
+        for g in ne_tests:
+            lt, gt = guard_form(("Lt", g[1], g[2], 1)), guard_form(("Gt", g[1], g[2], 1))
+            base_ = [{"B": 1, 1: -20}] + inv(known) + [{"L": 1}, {"m": 1}, {"m": -1, 1: 65535}] + [as_fact_(f) for f in gforms if f is not None]
+            if lt is None or gt is None or not (fm.entails(base_, as_fact_(lt)) or fm.entails(base_, as_fact_(gt))):
+                gforms.append(None)
         gfacts = [{(1 if k == "1" else k): v for k, v in f} for f in gforms if f is not None]
         if fm.infeasible([{"B": 1, 1: -20}] + inv(known) + [{"L": 1}, {"m": 1}, {"m": -1, 1: 65535}] + gfacts):
             n_infeasible += 1
